@@ -22,7 +22,7 @@
 //   counter_threads   the same configuration space with real threads: 1..3 recorder threads race
 //                     1..2 collector threads (every reader belongs to one collector thread); after
 //                     the join every reader collects once more.  Owns no schedule: adds evidence.
-//   f7_witness/f8_handle_witness/f8_views_witness
+//   f7_witness, f8_handle_witness, f8_views_witness, f8_witness (= both F8 shapes)
 //                     fixed minimal cases of the findings F7 / F8 (no stream use); regressions once
 //                     the findings are fixed, KNOWN-FINDING witnesses while they are open.
 // Oracle (written from the statement, independent of the SDK's storage code): per (stream,
@@ -1363,9 +1363,12 @@ VH_TARGET(f7_witness, 1, "fixed case of finding F7 (not part of the search)")
   f.provider->Shutdown();
 }
 
-VH_TARGET(f8_handle_witness, 1, "fixed case of finding F8, second handle (not part of the search)")
+namespace
 {
-  c.note("one cumulative reader; h0 = CreateUInt64Counter('a'); h0.Add(100); h1 = CreateUInt64Counter('a'); h1.Add(1); Collect\n");
+void f8_second_handle(vh::Case &c)
+{
+  c.note("one cumulative reader; h0 = CreateUInt64Counter('a'); h0.Add(100); h1 = CreateUInt64Counter('a'); h1.Add(1); Collect; "
+         "h0.Add(5); Collect\n");
   Fixed f;
   make_fixed(f, std::unique_ptr<sdkm::ViewRegistry>(new sdkm::ViewRegistry), {1});
   auto meter = f.provider->GetMeter("m0", "1.0", "");
@@ -1387,7 +1390,7 @@ VH_TARGET(f8_handle_witness, 1, "fixed case of finding F8, second handle (not pa
   f.provider->Shutdown();
 }
 
-VH_TARGET(f8_views_witness, 1, "fixed case of finding F8, two views (not part of the search)")
+void f8_two_views(vh::Case &c)
 {
   c.note("one cumulative reader; views a->a_v0 and a->a_v1; CreateUInt64Counter('a'); Add(7); Collect\n");
   std::unique_ptr<sdkm::ViewRegistry> reg(new sdkm::ViewRegistry);
@@ -1409,4 +1412,22 @@ VH_TARGET(f8_views_witness, 1, "fixed case of finding F8, two views (not part of
                                                                         << sum_of(g, "m0/a_v1") << " but 7 was recorded");
   h0.reset();
   f.provider->Shutdown();
+}
+}  // namespace
+
+VH_TARGET(f8_handle_witness, 1, "fixed case of finding F8, second handle (not part of the search)")
+{
+  f8_second_handle(c);
+}
+
+VH_TARGET(f8_views_witness, 1, "fixed case of finding F8, two views (not part of the search)")
+{
+  f8_two_views(c);
+}
+
+// both shapes of F8 in one target: the witness of the finding while it is open
+VH_TARGET(f8_witness, 1, "fixed case of finding F8, both shapes (not part of the search)")
+{
+  f8_second_handle(c);
+  f8_two_views(c);
 }
